@@ -627,7 +627,7 @@ func runC07Anchor(c *Ctx) {
 	}
 	reads := false
 	for _, f := range p.Funcs {
-		if !strings.HasSuffix(p.File(f.Pos()), "/parse.go") {
+		if !strings.HasSuffix(p.unitFile(f), "/parse.go") {
 			continue
 		}
 		eachInstr(f, func(_ *ssa.BasicBlock, _ int, in ssa.Instruction) {
@@ -924,7 +924,7 @@ func runC13ByPos(c *Ctx) {
 	p := c.P
 	n, bad := 0, 0
 	for _, fn := range p.Funcs {
-		if !strings.HasSuffix(p.File(fn.Pos()), "/parse.go") {
+		if !strings.HasSuffix(p.unitFile(fn), "/parse.go") {
 			continue
 		}
 		eachInstr(fn, func(_ *ssa.BasicBlock, _ int, in ssa.Instruction) {
@@ -1491,7 +1491,7 @@ func runC17ColUnit(c *Ctx) {
 	p := c.P
 	n := 0
 	for _, fn := range p.Funcs {
-		if !strings.HasSuffix(p.File(fn.Pos()), "/glob.go") {
+		if !strings.HasSuffix(p.unitFile(fn), "/glob.go") {
 			continue
 		}
 		eachInstr(fn, func(_ *ssa.BasicBlock, _ int, in ssa.Instruction) {
